@@ -395,7 +395,7 @@ pub fn e1_check(id: &str) -> Option<Check> {
         }
         // exploratory profile (not registered in MANIFEST): operations from thread-local
         // destructors (temporary nodes) on the fallback path under thread churn, two containers
-        "X11" => {
+        "C11dtor" => {
             p.name = "dtor-storm";
             p.threads = (4, 6);
             p.ops = (1, 3);
@@ -417,12 +417,12 @@ pub fn e1_check(id: &str) -> Option<Check> {
             p.w_stall = 6;
             p.modes = (1, 0, 0);
             Check {
-                id: "X11",
+                id: "C11",
                 profile: p,
-                deciding: &["O-lin", "O-nodes"],
-                rule: "exploratory: loads from thread-local destructors on the fallback-only strategy, writers to two containers, thread churn; SC mode",
+                deciding: &["O-nodes", "O-uaf", "O-acct", "O-tight", "O-slots", "O-total", "O-lin", "O-chain", "O-guard", "O-race"],
+                rule: "second part of C11 (found F7): 4-6 threads on the fallback-only strategy, two containers, writers storing, every non-finalizer thread performs three loads from a thread-local destructor after the crate's own thread-local is gone (temporary nodes, which all start at the same generation), late threads, role-triggered Stall schedules; interleaving semantics. Oracle: provenance/linearizability of those loads, node ownership. Non-trivial: a destructor-time operation ran and a node was re-claimed.",
                 nontrivial: |_, o| o.hs.dtor_ops > 0 && o.stats.node_reclaimed > 0,
-                quick: 300_000,
+                quick: 120_000,
                 thorough: 5_000_000,
                 fixup: |c| {
                     // destructor operations: loads of both containers
